@@ -303,6 +303,9 @@ def explore(pp, entry, n, extra_pc_fn=None, on_path=None, max_paths=None, first_
     work = [list(d) for d in (seed_decisions or [[]])]
     out = []; steps = 0; fn_used = set(); models_used = set()
     t0 = time.time()
+    if extra:
+        ok, _ = solver.check(list(extra))
+        if not ok: work = []          # the input constraint has no solution of this length: nothing to explore
     while work:
         dec = work.pop()
         r, res = run_path(pp, solver, tvars, entry, n, dec, extra_pc=extra)
